@@ -184,6 +184,8 @@ def shapes(tier):
                 out.append((df, None, None, None, ""))
             for sep in (("T", " ") if df != "none" else ("", "T")):
                 for ts in TIME_STRUCTS:
+                    if df == "none" and sep == "" and ":" not in ts:
+                        continue   # without the T designator only the extended structures are times (bare hh / hhmmss: BARE)
                     for fr in (fracs if ts in ("hh:mm:ss", "hhmmss") else [None]):
                         for tz in TZ_FORMS:
                             out.append((df, sep, ts, fr, tz))
@@ -233,14 +235,20 @@ def _shape_case(sh):
             valid, date, time, tzv = denoted(case._fields)
             out = []
             if date is not None and time is None:
-                out.append(("returns_a_date", isinstance(result, Obj) and result.cls is _dt.date))
+                if not (isinstance(result, Obj) and result.cls is _dt.date):
+                    return [("returns_a_date", False)]
+                out.append(("returns_a_date", True))
                 out.append(("the_date_it_denotes", date_matches(result, date)))
             elif date is None:
-                out.append(("returns_a_time", isinstance(result, Obj) and result.cls is _dt.time))
+                if not (isinstance(result, Obj) and result.cls is _dt.time):
+                    return [("returns_a_time", False)]
+                out.append(("returns_a_time", True))
                 out.append(("the_time_it_denotes", And(eq(result.hour, time[0]), eq(result.minute, time[1]), eq(result.second, time[2]), eq(result.microsecond, time[3]))))
                 out.append(("the_offset_it_denotes", tz_matches(result, tzv)))
             else:
-                out.append(("returns_a_datetime", isinstance(result, Obj) and result.cls is _dt.datetime))
+                if not (isinstance(result, Obj) and result.cls is _dt.datetime):
+                    return [("returns_a_datetime", False)]
+                out.append(("returns_a_datetime", True))
                 out.append(("the_date_it_denotes", date_matches(result, date)))
                 out.append(("the_time_it_denotes", And(eq(result.hour, time[0]), eq(result.minute, time[1]), eq(result.second, time[2]), eq(result.microsecond, time[3]))))
                 out.append(("the_offset_it_denotes", tz_matches(result, tzv)))
@@ -638,6 +646,8 @@ class parser_parse:
     cases = _total_cases()
 
 
+transparent("pendulum.interval.Interval.__new__", "pendulum.interval.Interval.__init__",
+            why="fallback for endpoint pairs no Interval case covers (one named zone, one fixed offset): executed from the source in the totality proofs")
 transparent("pendulum.date", "pendulum.time", "pendulum.duration", "pendulum.interval", "pendulum.instance", "pendulum.datetime.DateTime.instance",
             why="one-line factories of the public namespace")
 transparent("pendulum.parser._parse", "pendulum.parsing.parse", "pendulum.parsing.iso8601.parse_iso8601", "pendulum.parsing._parse", "pendulum.parsing._normalize", "pendulum.parsing._parse_common", "pendulum.parsing._parse_iso8601_interval",
